@@ -46,9 +46,11 @@ ZONES = ["America/Los_Angeles", "Europe/London", "Australia/Lord_Howe", "Asia/Ka
          "America/St_Johns", "Africa/Cairo", "America/Havana", "Asia/Kolkata", "UTC",
          "Pacific/Chatham"]
 
-# recorded-findings switches: sub-domains in which the real code is known to deviate
-GEN_MIXED_BYDAY = os.environ.get("VERIF_RECUR_MIXED", "0") == "1"
-GEN_START_EQ_DAY = os.environ.get("VERIF_RECUR_START86400", "0") == "1"
+# share of MONTHLY/YEARLY rules of part "forward" whose BYDAY mixes plain and n-th weekdays (known
+# finding KF-MIXED-BYDAY-C07: dateutil reads the list as a conjunction); only the non-empty variant
+# (the n-th weekday's plain form is listed too) — the empty variant makes every fetch spin to
+# year 9999
+MIXED_BYDAY_SHARE = float(os.environ.get("VERIF_RECUR_MIXED", "0.06"))
 
 WIN_LO = (date(1990, 1, 1).toordinal() - EPOCH_ORD)
 WIN_HI = (date(2036, 12, 31).toordinal() - EPOCH_ORD)
@@ -384,7 +386,8 @@ def gap_times(name, rng):
 def gen_rule(rng, hard=False, mixed_ok=False):
     """a rule accepted by RecurringPattern.__init__ that fires at least once in 12 years"""
     for _ in range(200):
-        parts = gen_parts(rng, mixed_ok=mixed_ok)
+        parts = gen_parts(rng, freq=rng.choice(["monthly", "monthly", "yearly", None, None, None]) if hard else None,
+                          mixed_ok=mixed_ok)
         freq = parts["freq"]
         tz = rng.choice(ZONES)
         anchored = rng.random() < (0.7 if hard else 0.5)
@@ -407,10 +410,11 @@ def gen_rule(rng, hard=False, mixed_ok=False):
                 ad = dt(rng.randrange(dn(date(1975, 1, 1)), dn(date(2035, 12, 31))))
             if parts["days"]:
                 # __init__ wants the anchor's weekday among the listed days
-                wds = {e[0] for e in parts["days"]}
+                # (its validation only looks at the plain names of the list when there are any)
+                wds = {e[0] for e in parts["days"] if e[1] is None} or {e[0] for e in parts["days"]}
                 if hard and ad.day >= 29 and rng.random() < 0.7:
                     # keep the hard date: choose the weekdays to fit it
-                    shift = (ad.weekday() - parts["days"][0][0]) % 7
+                    shift = (ad.weekday() - sorted(wds)[0]) % 7
                     parts["days"] = [[(e[0] + shift) % 7, e[1]] for e in parts["days"]]
                 else:
                     while ad.weekday() not in wds:
@@ -429,6 +433,19 @@ def gen_rule(rng, hard=False, mixed_ok=False):
         as_int = anchored and rng.random() < 0.12
         return dict(parts, tz=tz, anchor=anchor, sod=sod, dur=dur, as_int=as_int, exdates=[])
     raise RuntimeError("rule generator starved")
+
+
+def gen_form(rng):
+    """a rule that day_of_week() / time_of_day() stand for"""
+    tz = rng.choice(ZONES)
+    base = dict(interval=1, dom=[], months=[], setpos=[], tz=tz, anchor=None, as_int=False, exdates=[])
+    if rng.random() < 0.5:
+        wds = sorted(rng.sample(range(7), rng.choice([1, 2, 3, 5, 7])))
+        return "dow", dict(base, freq="weekly", days=[[w, None] for w in wds], sod=0, dur=DAY)
+    sod = rng.choice([0, 9 * 3600, rng.randrange(DAY), 2 * 3600 + 1800, 1800])
+    dur = rng.choice([DAY - sod, 1, 3600, rng.randrange(1, DAY - sod + 1)])
+    dur = min(dur, DAY - sod)
+    return "tod", dict(base, freq="daily", days=[], sod=sod, dur=dur)
 
 
 def anchor_ts(rule):
@@ -572,7 +589,7 @@ class RecurFamily(Family):
         super().__init__(prop)
         self.name, self.oracle, self.n_quick, self.n_thorough, self.hard = name, oracle, n_quick, n_thorough, hard
         self.header = coq_header(prop)
-        if GEN_MIXED_BYDAY:
+        if not hard:
             self.dom_funcs = {"MIXED_BYDAY": "no_mixed_byday"}
         self.rule = (
             "rules: freq x interval 1-5 x 0-3 weekdays (n-th +-1..5 for monthly/yearly) x month-days (incl. -1, 29-31) "
@@ -585,18 +602,33 @@ class RecurFamily(Family):
 
     # ---- generation
     def gen(self, rng, tier, n):
-        for _ in range(n):
-            rule = gen_rule(rng, hard=self.hard, mixed_ok=GEN_MIXED_BYDAY and rng.random() < 0.3)
-            if GEN_START_EQ_DAY and rule["anchor"] is None and rng.random() < 0.05:
-                rule["sod"] = DAY
+        made = 0
+        while made < n:
+            rule = gen_rule(rng, hard=self.hard, mixed_ok=(not self.hard) and rng.random() < MIXED_BYDAY_SHARE)
+            form = None
+            if not self.hard and rng.random() < 0.08:
+                form, rule = gen_form(rng)
             a, b = gen_window(rng, rule)
+            if not self.hard and form is None and rng.random() < 0.12:
+                # sweep: the same rule asked at consecutive days (every phase of the window
+                # relative to the rule's period)
+                step = rng.choice([DAY, DAY, 7 * DAY, 3600])
+                for i in range(rng.choice([5, 8, 12])):
+                    made += 1
+                    yield dict(rule=copy.deepcopy(rule), a=a + i * step, b=b + i * step, rev=False, subs=[],
+                               slice=False, form=None)
+                continue
+            made += 1
             try:
                 occ = pairs(build(rule).fetch(a, b))
             except Exception:
                 occ = []
             a, b = snap(rng, a, b, occ)
             add_exdates(rng, rule, occ)
-            case = dict(rule=rule, a=a, b=b, rev=False, subs=[])
+            case = dict(rule=rule, a=a, b=b, rev=False, subs=[], form=form,
+                        slice=(not self.hard and rng.random() < 0.2))
+            if form is not None:
+                case["rule"]["exdates"] = []
             if self.hard:
                 self.add_nested(rng, case)
             elif rng.random() < 0.15:
@@ -607,11 +639,26 @@ class RecurFamily(Family):
         rule = case["rule"]
         a, b = case["a"], case["b"]
         chunk = CHUNK_S[rule["freq"]]
-        if rng.random() < 0.45:
+        mode = rng.random()
+        if mode < 0.3:
+            # window longer than 1-3 chunks that ends exactly on an occurrence start, so interior
+            # chunk edges (end - k*chunk) can coincide with occurrence starts as well
+            per = PERIOD_S[rule["freq"]] * rule["interval"]
+            try:
+                occ = pairs(build(rule).fetch(b, b + 2 * per + DAY))
+            except Exception:
+                occ = []
+            if occ:
+                b = rng.choice(occ)[0]
+                a = b - (rng.choice([1, 1, 2, 3]) * chunk + rng.choice([0, 1, DAY, 3600, rng.randrange(chunk)]))
+                a = max(a, WIN_LO * DAY)
+        elif mode < 0.6:
             # wide enough for the reverse pager to cut it into 2-4 chunks
             b = a + rng.choice([chunk + 1, chunk + DAY, 2 * chunk, 2 * chunk + rng.randrange(chunk), 3 * chunk + 5])
             if b > (WIN_HI + 400) * DAY:
                 a, b = a - (b - (WIN_HI + 400) * DAY), (WIN_HI + 400) * DAY
+        if a >= b:
+            a = b - 1
         case["a"], case["b"] = a, b
         case["rev"] = rng.random() < 0.8
         subs = []
@@ -632,9 +679,24 @@ class RecurFamily(Family):
                 subs.append([sa, sb, rng.random() < 0.4])
         case["subs"] = subs
 
+    def corpus(self):
+        # an int start outside [0, 86400) that is not a timestamp is rejected by the constructor
+        # (repaired: it used to be accepted and every fetch raised)
+        base = dict(freq="daily", interval=1, days=[], dom=[], months=[], setpos=[], tz="UTC", anchor=None,
+                    sod=0, dur=DAY, as_int=False, exdates=[])
+        return [dict(rule=base, a=1700000000, b=1700100000, rev=False, subs=[], slice=False, form=None,
+                     expect_reject=st) for st in (DAY, -1)]
+
     # ---- the real code
     def run_impl(self, case):
         rule = case["rule"]
+        if case.get("expect_reject") is not None:
+            try:
+                RecurringPattern(rule["freq"], start=case["expect_reject"], tz=rule["tz"])
+            except ValueError:
+                pass          # rejected: go on with the accepted rule of the case
+            else:
+                return {"err": f"constructor accepted start={case['expect_reject']} (not a time of day, not a timestamp)"}
         try:
             p = build(rule)
             a_ts, sod = eff_sod_anchor(rule)
@@ -644,7 +706,13 @@ class RecurFamily(Family):
             subs = []
             for sa, sb, r in case["subs"]:
                 subs.append([sa, sb, pairs(p.fetch(sa, sb)), pairs(p.fetch(sa, sb, reverse=True)) if r else None])
-            return dict(fwd=fwd, rev=rev, subs=subs)
+            sl = pairs(p[case["a"]:case["b"]]) if case.get("slice") else None
+            flat = None
+            if case.get("form") == "dow":
+                flat = pairs(day_of_week([CODES[wd].lower() for wd, _ in rule["days"]], tz=rule["tz"])[case["a"]:case["b"]])
+            elif case.get("form") == "tod":
+                flat = pairs(time_of_day(start=rule["sod"], duration=rule["dur"], tz=rule["tz"])[case["a"]:case["b"]])
+            return dict(fwd=fwd, rev=rev, subs=subs, slice=sl, flat=flat)
         except AssertionError:
             raise
         except Exception as ex:
@@ -653,7 +721,7 @@ class RecurFamily(Family):
     def coq_case(self, case, obs):
         subs = clist([f"({cz(sa)}, {cz(sb)}, {coq_pairs(f)}, {coq_opairs(r)})" for sa, sb, f, r in obs["subs"]])
         return (f"(mkRC {coq_rule(case['rule'])} {cz(case['a'])} {cz(case['b'])} {coq_pairs(obs['fwd'])} "
-                f"{coq_opairs(obs['rev'])} {subs})")
+                f"{coq_opairs(obs['rev'])} {subs} {coq_opairs(obs.get('slice'))} {coq_opairs(obs.get('flat'))})")
 
     # ---- reporting helpers
     def describe(self, case):
@@ -662,6 +730,7 @@ class RecurFamily(Family):
                 f"month={r['months'] or None}, bysetpos={r['setpos'] or None}, start="
                 + (f"datetime{tuple(r['anchor'])}@{r['tz']}" + (" as int" if r["as_int"] else "") if r["anchor"] else str(r["sod"]))
                 + f", duration={r['dur']}, tz={r['tz']!r}, exdates={r['exdates']}).fetch({case['a']}, {case['b']})"
+                + (" + [a:b]" if case.get("slice") else "") + (f" + {case['form']} form" if case.get("form") else "")
                 + (" + reverse" if case["rev"] else "") + (f" + nested {case['subs']}" if case["subs"] else ""))
 
     def nontrivial(self, case, obs):
@@ -683,6 +752,10 @@ class RecurFamily(Family):
             dist["duration_gt_period"] += 1
         if case["rev"]:
             dist["reverse"] += 1
+        if case.get("slice"):
+            dist["slice"] += 1
+        if case.get("form"):
+            dist["form_" + case["form"]] += 1
         if case["subs"]:
             dist["nested"] += 1
         if r["anchor"] and r["anchor"][2] >= 29:
